@@ -314,3 +314,39 @@ func Pool(n int, mk func(i int) *Child, items int, item func(i int) any, handle 
 	close(next)
 	wg.Wait()
 }
+
+// RunBatch drives n sub-cases through one child. mk(from) builds the work item covering
+// sub-cases [from, n); the worker must emit Sub(i)/Res(i, ...) with absolute indices.
+// A sub-case that kills the child (or exhausts its CPU budget) is reported through onDead
+// and the batch resumes after it.
+func RunBatch(ch *Child, n int, mk func(from int) any, onRes func(i int, r json.RawMessage), onDead func(i int, outcome, stderr string)) {
+	from := 0
+	for from < n {
+		res := ch.Do(mk(from))
+		for _, raw := range res.Res {
+			var l struct {
+				I int             `json:"i"`
+				R json.RawMessage `json:"r"`
+			}
+			if json.Unmarshal(raw, &l) == nil {
+				onRes(l.I, l.R)
+			}
+		}
+		if res.Outcome == "post" {
+			return
+		}
+		dead := res.LastSub
+		if dead < from {
+			// died before starting any sub-case: report the first one and move on
+			dead = from
+		}
+		if res.SubDone && dead+1 <= n {
+			// the last started sub-case completed; the child died between cases
+			onDead(dead, res.Outcome+":between-cases", res.Stderr)
+			from = dead + 1
+			continue
+		}
+		onDead(dead, res.Outcome, res.Stderr)
+		from = dead + 1
+	}
+}
